@@ -9,7 +9,8 @@ output:
     truth-table indices by bit inversion, independently of the model;
   * the observed result is canonical (`isCanon`);
   * the observed fused result is identical to the observed result of the separately performed steps;
-  * a panic is observed exactly when the variable counts differ or some flip variable is `≥ num_vars`.
+  * inputs outside the quantifier (different variable counts, a flip variable `≥ num_vars`): no clause; the
+    verdict is agreement with the model's outcome (`panic`) only.
 -/
 namespace B.Drive.C04
 open B B.Lim B.Drive
@@ -137,19 +138,20 @@ def handleBase (key : String) (ins obs : List String) : Verdict :=
       let model := showOut (fusedBinaryFlipOp L R op fl fr fo)
       -- independent statement of when the Rust code must panic
       let mustPanic := numVars R != n || [fl, fr, fo].any fun f => match f with | some x => x ≥ n | none => false
+      -- inputs outside the property's quantifier (flip variable out of range, different variable counts): the
+      -- property says nothing, every clause is off; the verdict is agreement with the model outcome only
       let fail :=
-        if mustPanic then
-          (if fused == "panic" && sep == "panic" then none else some "flip-bounds:panic-expected")
+        if mustPanic then none
         else match parseArr? fused, parseArr? sep with
           | some X, some S => firstFail [checkBin n X L R (conn2 c) fl fr fo,
               if isCanon X then none else some "not-canonical",
               if X == S then none else some "fused-vs-separate"]
-          | _, _ => some ("flip-bounds:unexpected-outcome:" ++ fused ++ "/" ++ sep)
+          | _, _ => some ("outcome:" ++ fused ++ "/" ++ sep)
       let unused := [(fl, L), (fr, R)].any (fun p => p.1.isSome && !mentions p.2 p.1) ||
         (fo.isSome && !mentions L fo && !mentions R fo)
       { agree := model == fused, model, fail,
         nontrivial := !mustPanic && (parseArr? fused).any (·.size > 2) && [fl, fr, fo].any Option.isSome,
-        tags := ["bin", flipTag [fl, fr, fo], if mustPanic then "panic" else "ok", s!"n{n}"] ++
+        tags := ["bin", flipTag [fl, fr, fo], if mustPanic then "outside-quantifier" else "ok", s!"n{n}"] ++
           (if unused then ["flip-unused-var"] else []) ++
           (if L.size > 65536 || R.size > 65536 then ["big-operand"] else []) }
     | _, _, _, _, _, _ => Verdict.bad "args"
@@ -164,16 +166,15 @@ def handleBase (key : String) (ins obs : List String) : Verdict :=
       let mustPanic := numVars B != n || numVars C != n ||
         [fa, fb, fc, fo].any fun f => match f with | some x => x ≥ n | none => false
       let fail :=
-        if mustPanic then
-          (if fused == "panic" && sep == "panic" then none else some "flip-bounds:panic-expected")
+        if mustPanic then none
         else match parseArr? fused, parseArr? sep with
           | some X, some S => firstFail [checkTer n X A B C (conn3 cn) fa fb fc fo,
               if isCanon X then none else some "not-canonical",
               if X == S then none else some "fused-vs-separate"]
-          | _, _ => some ("flip-bounds:unexpected-outcome:" ++ fused ++ "/" ++ sep)
+          | _, _ => some ("outcome:" ++ fused ++ "/" ++ sep)
       { agree := model == fused, model, fail,
         nontrivial := !mustPanic && (parseArr? fused).any (·.size > 2) && [fa, fb, fc, fo].any Option.isSome,
-        tags := ["ter", flipTag [fa, fb, fc, fo], if mustPanic then "panic" else "ok", s!"n{n}"] ++
+        tags := ["ter", flipTag [fa, fb, fc, fo], if mustPanic then "outside-quantifier" else "ok", s!"n{n}"] ++
           (if A.size > 65536 || B.size > 65536 || C.size > 65536 then ["big-operand"] else []) }
     | _, _, _, _, _, _, _, _ => Verdict.bad "args"
   | _, _, _ => Verdict.bad ("key " ++ key)
@@ -181,7 +182,10 @@ def handleBase (key : String) (ins obs : List String) : Verdict :=
 /-- Aliasing cases: the same function in several operand positions, passed by the harness either as the SAME
     object (`alias`) or as equal clones (`clone`). Values have no identity in the model and in the property, so
     both modes are judged exactly like the plain case with the operand repeated. -/
-def handle (key : String) (ins obs : List String) : Verdict :=
+def handle (key : String) (ins obs0 : List String) : Verdict :=
+  -- the runner reports a call that did not return as the single observation `hang`: inside the quantifier that
+  -- is a failed clause (`outcome:hang/hang`), outside it is a plain disagreement with the model outcome
+  let obs := if obs0 == ["hang"] then ["hang", "hang"] else obs0
   match key, ins with
   | "C04.binA", mode :: table :: conn :: a :: rest =>
     if mode != "alias" && mode != "clone" then Verdict.bad "mode" else
